@@ -420,12 +420,16 @@ def type_groups(ctx, maxlen):
                 strs += [b + "".join(t) for b in ("202309", "000002", "202402", "202313") for t in itertools.product(alpha, repeat=2)]
         bnd = boundary(d)
         strs += bnd
+        if name not in TYPE_NAMES:          # other spellings of a name (ftype.upper()): boundary values only
+            groups.append(Group("1", name, label="type:" + name, strings=strs))
+            continue
+        p_all = ctx.scale(0.25, 1.0) if len(bnd) < 500 else ctx.scale(0.03, 0.4)
         for b in bnd:
             if len(b) <= 24:
-                strs += one_edits(b, alpha) if rng.random() < ctx.scale(0.25, 1.0) else [rand_edit(rng, b, alpha) for _ in range(4)]
+                strs += one_edits(b, alpha) if rng.random() < p_all else [rand_edit(rng, b, alpha) for _ in range(4)]
             else:
                 strs += [rand_edit(rng, b, alpha) for _ in range(3)]
-        for _ in range(n_rand if name in TYPE_NAMES else 50):
+        for _ in range(n_rand):
             m = rand_member(rng, d)
             strs.append(m)
             e = rand_edit(rng, m, alpha)
